@@ -85,6 +85,26 @@ var lcKinds = map[string]func() (interceptor.Factory, error){
 	},
 }
 
+// lcKindsApp: the kinds whose constructor takes more than one functional option, with the option list in the order
+// the case's application writes it (streaminfo_test.go, appShuffle): options that set different fields commute.
+var lcKindsApp = map[string]func(a *App) (interceptor.Factory, error){
+	"nackgen": func(a *App) (interceptor.Factory, error) {
+		return nack.NewGeneratorInterceptor(appShuffle(a, []nack.GeneratorOption{nack.GeneratorInterval(lcInterval), nack.GeneratorSize(64)})...)
+	},
+	"dumps": func(a *App) (interceptor.Factory, error) {
+		return packetdump.NewSenderInterceptor(appShuffle(a, []packetdump.PacketDumperOption{packetdump.RTPWriter(io.Discard), packetdump.RTCPWriter(io.Discard)})...)
+	},
+	"dumpr": func(a *App) (interceptor.Factory, error) {
+		return packetdump.NewReceiverInterceptor(appShuffle(a, []packetdump.PacketDumperOption{packetdump.RTPWriter(io.Discard), packetdump.RTCPWriter(io.Discard)})...)
+	},
+	"flexfec": func(a *App) (interceptor.Factory, error) {
+		return flexfec.NewFecInterceptor(appShuffle(a, []flexfec.FecOption{flexfec.NumMediaPackets(3), flexfec.NumFECPackets(1)})...)
+	},
+	"pacing": func(a *App) (interceptor.Factory, error) {
+		return pacing.NewInterceptor(appShuffle(a, []pacing.Option{pacing.InitialRate(10_000_000), pacing.Interval(5 * time.Millisecond)})...), nil
+	},
+}
+
 // a chain member whose Close fails: the remaining members must still be closed
 type lcFailCloser struct{ interceptor.NoOp }
 
@@ -190,6 +210,21 @@ type lcState struct {
 	// RTP writes that reached a stream writer for an SSRC after its Unbind returned
 	rtpAfterUnbind map[uint32]int
 	unbound        map[uint32]bool
+	// the application of the case (streaminfo_test.go) and the StreamInfo objects it handed to Bind*
+	app          *App
+	liveL, liveR map[uint32]*interceptor.StreamInfo
+}
+
+// bound: Bind* is called with the application's own object for the stream; once the call has returned the
+// application goes on using that object as it likes.
+func (s *lcState) bound(o *Out, live map[uint32]*interceptor.StreamInfo, ssrc uint32, bind func(info *interceptor.StreamInfo)) {
+	info := s.app.BindInfo(lcInfo(ssrc))
+	was := s.blocked
+	s.call(o, func() { bind(info) })
+	if s.blocked == was {
+		s.app.AfterBind(info)
+		live[ssrc] = info
+	}
 }
 
 func (s *lcState) call(o *Out, f func()) {
@@ -238,6 +273,7 @@ func (s *lcState) flush(o *Out, tag string) {
 }
 
 func lcRun(t *testing.T, ops []string, o *Out) {
+	app, ops := appOf(ops)
 	base := runtime.NumGoroutine()
 	residual := "clean"
 	func() {
@@ -254,7 +290,8 @@ func lcRun(t *testing.T, ops []string, o *Out) {
 		synctest.Test(t, func(t *testing.T) {
 			s := &lcState{emitted: map[uint32]bool{}, failAt: map[int]bool{}, writers: map[uint32]interceptor.RTPWriter{},
 				readers: map[uint32]interceptor.RTPReader{}, rseq: map[uint32]uint16{}, lastSeq: map[uint32]uint16{},
-				rtpAfterUnbind: map[uint32]int{}, unbound: map[uint32]bool{}}
+				rtpAfterUnbind: map[uint32]int{}, unbound: map[uint32]bool{},
+				app: app, liveL: map[uint32]*interceptor.StreamInfo{}, liveR: map[uint32]*interceptor.StreamInfo{}}
 			closed := false
 			sawEnd := false
 			for _, op := range ops {
@@ -265,7 +302,11 @@ func lcRun(t *testing.T, ops []string, o *Out) {
 				}
 				switch name {
 				case "new":
-					f, err := lcKinds[a["kind"]]()
+					mk := lcKinds[a["kind"]]
+					if mka, ok := lcKindsApp[a["kind"]]; ok && app != nil {
+						mk = func() (interceptor.Factory, error) { return mka(app) }
+					}
+					f, err := mk()
 					if err != nil {
 						o.P("err:new")
 						return
@@ -334,8 +375,8 @@ func lcRun(t *testing.T, ops []string, o *Out) {
 					})
 				case "bl":
 					ssrc := uint32(atoi(a["ssrc"]))
-					s.call(o, func() {
-						s.writers[ssrc] = s.ic.BindLocalStream(lcInfo(ssrc), interceptor.RTPWriterFunc(
+					s.bound(o, s.liveL, ssrc, func(info *interceptor.StreamInfo) {
+						s.writers[ssrc] = s.ic.BindLocalStream(info, interceptor.RTPWriterFunc(
 							func(h *rtp.Header, p []byte, _ interceptor.Attributes) (int, error) {
 								s.mu.Lock()
 								g := s.gate
@@ -359,8 +400,8 @@ func lcRun(t *testing.T, ops []string, o *Out) {
 					})
 				case "br":
 					ssrc := uint32(atoi(a["ssrc"]))
-					s.call(o, func() {
-						s.readers[ssrc] = s.ic.BindRemoteStream(lcInfo(ssrc), interceptor.RTPReaderFunc(
+					s.bound(o, s.liveR, ssrc, func(info *interceptor.StreamInfo) {
+						s.readers[ssrc] = s.ic.BindRemoteStream(info, interceptor.RTPReaderFunc(
 							func(b []byte, at interceptor.Attributes) (int, interceptor.Attributes, error) {
 								s.rseq[ssrc] += 2 // every second number is lost: keeps the NACK generator talking
 								h := rtp.Header{Version: 2, SSRC: ssrc, PayloadType: 96, SequenceNumber: s.rseq[ssrc],
@@ -383,8 +424,8 @@ func lcRun(t *testing.T, ops []string, o *Out) {
 					s.mu.Unlock()
 					for _, k := range []string{"a", "b"} {
 						ssrc := uint32(atoi(a[k]))
-						s.call(o, func() {
-							s.readers[ssrc] = s.ic.BindRemoteStream(lcInfo(ssrc), interceptor.RTPReaderFunc(
+						s.bound(o, s.liveR, ssrc, func(info *interceptor.StreamInfo) {
+							s.readers[ssrc] = s.ic.BindRemoteStream(info, interceptor.RTPReaderFunc(
 								func(b []byte, at interceptor.Attributes) (int, interceptor.Attributes, error) {
 									return 0, at, io.EOF
 								}))
@@ -399,10 +440,13 @@ func lcRun(t *testing.T, ops []string, o *Out) {
 					s.flush(o, "busy")
 				case "ul":
 					ssrc := uint32(atoi(a["ssrc"]))
-					s.call(o, func() { s.ic.UnbindLocalStream(lcInfo(ssrc)) })
+					// a stream is named by its SSRC: whatever else the StreamInfo says by now (app op, `unbind=`)
+					ui := s.app.UnbindInfo(lcInfo(ssrc), s.liveL[ssrc])
+					s.call(o, func() { s.ic.UnbindLocalStream(ui) })
 				case "ur":
 					ssrc := uint32(atoi(a["ssrc"]))
-					s.call(o, func() { s.ic.UnbindRemoteStream(lcInfo(ssrc)) })
+					ui := s.app.UnbindInfo(lcInfo(ssrc), s.liveR[ssrc])
+					s.call(o, func() { s.ic.UnbindRemoteStream(ui) })
 				case "w":
 					ssrc := uint32(atoi(a["ssrc"]))
 					w := s.writers[ssrc]
@@ -504,7 +548,8 @@ func lcRun(t *testing.T, ops []string, o *Out) {
 					inflight := s.inGate
 					s.mu.Unlock()
 					ud := make(chan struct{})
-					go func() { s.ic.UnbindLocalStream(lcInfo(ssrc)); close(ud) }()
+					ui := s.app.UnbindInfo(lcInfo(ssrc), s.liveL[ssrc])
+					go func() { s.ic.UnbindLocalStream(ui); close(ud) }()
 					synctest.Wait()
 					select {
 					case <-ud:
@@ -724,6 +769,11 @@ func init() {
 				}
 			}
 			ops = append(ops, "end")
+			// the application of the case: which StreamInfo it hands to Unbind*, how it writes the feedback list, what
+			// it does with its StreamInfo after Bind*, the order of its option list (streaminfo_test.go)
+			if ar := NewRng(r.U64() ^ 0xA9911); ar.Chance(2, 3) {
+				ops = withApp(ops, genApp(ar, 3, 2, 2, 2))
+			}
 			return Case{Class: fmt.Sprintf("%s-t%d", kind, templ), Ops: ops}
 		},
 		Run: lcRun,
